@@ -243,3 +243,20 @@ P("C17",
    U("c17.resourcemanager", "c17", "TestResourceManager", "resource manager vs counting model", Q(20000, 4), T(2000000), min_nontrivial_frac=0.2, env={"VERIF_JOURNAL": "1"}),
    U("c17.piececache", "c17", "TestPieceCache", "read cache: bounded size, loader values, clear/expiry", Q(2400, 8), T(200000), min_nontrivial_frac=0.3, env={"VERIF_JOURNAL": "1"}),
   ])
+
+SESSION_TRUST = ("harness/speer + refwire + refmse (scripted peers), harness/strk (trackers, web seed), harness/sstore (recording storage), harness/model (ground truth F); "
+                 "each case runs in a child process: a crash or an overrun of 60 s is reported with the case and the stack / goroutine dump")
+
+P("C10",
+  level_text="Bounded random exploration at session level: a real leeching session (in-memory recording storage) is started from a generated .torrent or magnet link for a "
+             "generated layout, in rarest-first or sequential mode, under each encryption policy, with at least one honest full source (scripted seeder listening or dialing, "
+             "plaintext or MSE, with or without the fast extension, and/or an HTTP web seed) plus 0..3 nuisance peers (never unchoke, choke cycles, stalls, disconnects, corrupt blocks, "
+             "duplicates, partial bitfields) and optionally a corrupting / truncating / 404 web seed. Oracle: completion is signalled and every file equals F; otherwise the stuck-state "
+             "predicate (honest source connected, unchoking, no request outstanding, nothing moved for 4 s) is a violation and mere slowness is inconclusive.",
+  level_note="Trusted: " + SESSION_TRUST + ". Liveness is judged as bounded-time reachability (25 s for <= 600 KiB) plus the stuck-state safety predicate; goroutine scheduling inside the client is not controlled.",
+  technique="property-based testing (rapid) at system level: generated configurations and fault schedules against scripted independent endpoints; stuck-state predicate",
+  rule="layout x mode x source mix x encryption policy x start mode x nuisance behaviours; non-trivial = multi-file / padded / short-last-piece layout, or nuisance peers, magnet, encryption, or a bad web seed",
+  assumptions=["the honest seeder is generated compatible with the client's encryption policy (the property assumes a reachable source)"],
+  units=[
+   U("c10.download", "c10", "TestDownload", "download completes with correct files whenever an honest full source is reachable", Q(320, 8, 900), T(12000, 16), min_nontrivial_frac=0.5, shrinktime="40s"),
+  ])
